@@ -50,8 +50,10 @@ import (
 
 	"codeberg.org/TauCeti/mangle-go/analysis"
 	"codeberg.org/TauCeti/mangle-go/ast"
+	"codeberg.org/TauCeti/mangle-go/builtin"
 	"codeberg.org/TauCeti/mangle-go/factstore"
 	"codeberg.org/TauCeti/mangle-go/functional"
+	"codeberg.org/TauCeti/mangle-go/symbols"
 	"codeberg.org/TauCeti/mangle-go/unionfind"
 )
 
@@ -337,6 +339,16 @@ func (e *explainer) solveBodyRec(premises []ast.Term, uf unionfind.UnionFind, de
 	first, rest := premises[0], premises[1:]
 	switch p := first.(type) {
 	case ast.Atom:
+		if p.Predicate.IsBuiltin() {
+			// A built-in predicate is not a stored relation. As in
+			// evaluation it is decided under the current bindings, which it
+			// may extend; like an equality it has no sub-proof.
+			var results []bodySolution
+			for _, next := range decideBuiltin(p, uf) {
+				results = append(results, e.solveBodyRec(rest, next, depth, need-len(results), accAtoms, accProofs, partial)...)
+			}
+			return results
+		}
 		return e.solveAtomPremise(p, rest, uf, depth, need, accAtoms, accProofs, partial)
 	case ast.Eq:
 		// As in evaluation, an equality may give a value to a variable.
@@ -365,6 +377,10 @@ func (e *explainer) solveBodyRec(premises []ast.Term, uf unionfind.UnionFind, de
 			// Negated premise fails: the atom IS in the store.
 			return nil
 		}
+		if ground.Predicate.IsBuiltin() && len(decideBuiltin(ground, uf)) > 0 {
+			// Negated premise fails: the built-in predicate holds.
+			return nil
+		}
 		leaf := &ProofNode{
 			ID:   absenceProofID(ground),
 			Fact: ground,
@@ -378,6 +394,41 @@ func (e *explainer) solveBodyRec(premises []ast.Term, uf unionfind.UnionFind, de
 		// continue so the user sees an annotated result rather than nothing.
 		return e.solveBodyRec(rest, uf, depth, need, accAtoms, accProofs, true)
 	}
+}
+
+// decideBuiltin evaluates a built-in predicate atom under uf the way the
+// engine does and returns the bindings under which it holds (none if it
+// does not hold or cannot be evaluated).
+func decideBuiltin(a ast.Atom, uf unionfind.UnionFind) []unionfind.UnionFind {
+	pattern, err := functional.EvalAtom(a, uf)
+	if err != nil {
+		return nil
+	}
+	// :match_pair and :match_cons want variables to bind. The search is
+	// goal directed, so these may have a value already: bind a fresh
+	// variable instead and compare afterwards.
+	var fresh, want []ast.BaseTerm
+	if sym := pattern.Predicate.Symbol; (sym == symbols.MatchPair.Symbol || sym == symbols.MatchCons.Symbol) && len(pattern.Args) == 3 {
+		args := append([]ast.BaseTerm(nil), pattern.Args...)
+		for i := 1; i < len(args); i++ {
+			if c, ok := args[i].(ast.Constant); ok {
+				v := ast.Variable{Symbol: fmt.Sprintf("_provenance%d", i)}
+				fresh, want, args[i] = append(fresh, v), append(want, c), v
+			}
+		}
+		pattern.Args = args
+	}
+	ok, nsubsts, err := builtin.Decide(pattern, &uf)
+	if err != nil || !ok {
+		return nil
+	}
+	var out []unionfind.UnionFind
+	for _, nsubst := range nsubsts {
+		if next, err := unionfind.UnifyTermsExtend(fresh, want, *nsubst); err == nil {
+			out = append(out, next)
+		}
+	}
+	return out
 }
 
 func (e *explainer) solveAtomPremise(pAtom ast.Atom, rest []ast.Term, uf unionfind.UnionFind, depth, need int, accAtoms []ast.Atom, accProofs []*ProofNode, partial bool) []bodySolution {
